@@ -138,7 +138,7 @@ pub fn check_batch(cx: &mut Cx, piece: Piece, from: usize, to: u64, class: &'sta
             let last = mk().last().map(RMove::of);
             let rem = total - k;
             let mut nths: Vec<(usize, Option<RMove>, usize)> = Vec::new();
-            for n in [0usize, 1, 2, rem.saturating_sub(1), rem, rem + 1, rem + 3] {
+            for n in [0usize, 1, 2, rem.saturating_sub(1), rem, rem + 1, rem + 3, 63, 64, 65, 255, 256, 1 << 32, usize::MAX] {
                 let mut it = mk();
                 let got = it.nth(n).map(RMove::of);
                 nths.push((n, got, it.len()));
@@ -173,7 +173,7 @@ pub fn check_batch(cx: &mut Cx, piece: Piece, from: usize, to: u64, class: &'sta
                 }
                 for (n, got, len_after) in nths {
                     let want_some = n < rest.len();
-                    let want_len = rest.len().saturating_sub(n + 1);
+                    let want_len = rest.len().saturating_sub(n.saturating_add(1));
                     if got.is_some() != want_some || got.map_or(false, |m| !rest.contains(&m)) || len_after != want_len {
                         cx.violation(
                             format!("C17|nth-after-next|piece={}|past-end={}", piece_name(Some(piece)), !want_some),
